@@ -41,7 +41,7 @@ DEGEN = {"dna": set("RYMKBVDHWSN?"), "rna": set("RYMKBVDHWSN?"), "protein": set(
 def bounds(tier):
     return {
         "quick": {"rows": [2], "deep_len": 2, "deep_depth": 2, "shallow_len": 3, "filters_len": 4, "shallow_depth": 1, "moltypes": ["dna"]},
-        "thorough": {"rows": [2, 3], "deep_len": 2, "deep_len_dna_2rows": 3, "deep_depth": 2, "shallow_len": 4, "shallow_depth": 1, "moltypes": ["dna", "rna", "protein"]},
+        "thorough": {"rows": [2, 3], "deep_len": 2, "rows3_deep_moltypes": ["dna"], "deep_depth": 2, "shallow_len": 4, "shallow_depth": 1, "moltypes": ["dna", "rna", "protein"]},
     }[tier]
 
 
@@ -625,6 +625,8 @@ def shards(tier, seed):
                     continue
                 if nrows == 3 and L > 2:
                     depth = b["shallow_depth"]  # 512 masks: histories of depth 2 only up to 2 columns
+                if nrows == 3 and L == 2 and mol not in b.get("rows3_deep_moltypes", b["moltypes"]):
+                    depth = b["shallow_depth"]
                 allrows = list(initial_rows(mol, nrows, L))
                 nchunks = max(1, min(len(allrows), (len(allrows) * (16 if depth > 1 else 1)) // 8))
                 for c in range(nchunks):
